@@ -380,7 +380,7 @@ Qed.
 Lemma on_message_kd c msg o s : kd s (out (on_message cfg c msg o s)).
 Proof.
   unfold on_message, try_catch. destruct (m_type msg) as [t|].
-  - set (s0 := set_log s (LFrame c (FAck (m_id msg)) (is_clean s) :: log s)).
+  - set (s0 := set_log s (LFrame c (FAck (m_id msg)) (is_clean s) (now s) :: log s)).
     rewrite (bind_ok _ _ s tt s0) by reflexivity.
     pose proof (dispatch_kd c t msg o s0) as H.
     destruct (dispatch cfg c t msg o s0) as [u s1|e s1]; cbn [out] in H; [exact H|].
@@ -448,7 +448,7 @@ Lemma open_sets_id s c cs a side msg o h :
               c_mailbox_id cs' = Some h.
 Proof.
   intros Hl Hb Hm Ht Hmm cs'. rewrite (step_cmd cfg s c msg o TOpen cs Hl Ht).
-  set (s0 := set_log s [LFrame c (FAck (m_id msg)) (is_clean s)]).
+  set (s0 := set_log s [LFrame c (FAck (m_id msg)) (is_clean s) (now s)]).
   assert (Hc0 : conn_of s0 c = cs) by (unfold conn_of, s0; cbn [conns set_log]; rewrite Hl; reflexivity).
   rewrite (dispatch_bound cfg c TOpen msg o s0 a side) by (try discriminate; rewrite Hc0; exact Hb).
   assert (Hl0 : lookup_conn c (conns s0) = Some cs) by exact Hl.
